@@ -5,6 +5,9 @@ use crate::charset::Charset;
 use crate::color::Color;
 use std::fmt::Display;
 
+#[cfg(avt_verif)]
+mod verif;
+
 const PARAMS_LEN: usize = 32;
 
 #[derive(Debug, Default)]
